@@ -66,6 +66,7 @@ def extra(ctx, state):
 SPEC = {
     "prop": "c14mix",
     "mod": "ParolModel.Props.C14",
+    "more_mods": ["ParolModel.Props.C14b"],
     "files": FILES,
     "oracle_req": oracle_req,
     "attribute": attribute,
@@ -85,10 +86,10 @@ SPEC = {
 
 CLAIM = {
     "category": "proof",
-    "text": "LL tree clause as a theorem for all tables and inputs: ll_leaves_eq_tokens (the token leaves of a successful untrimmed LL parse tree are exactly the delivered tokens in order — from ll_tree_actions and DS_leaves); tokensContiguous_concat (a token sequence that passes the decidable statement partitions the input). Token clause and LR tree clause: decided on the REAL output of every explored input by the Lean statements tokensContiguous (offsets contiguous 0..len, line/column of every token = those of its start offset) and treeCheck; the LR model lrRun is tied to the real LRParser by exact differential runs on styled inputs. Gap-filling by TokenBuffer::add and independence of the lookahead size are theorems of C13/C16 (gap_iff_unmatched, stream_indep_of_k).",
+    "text": "Tree clause as theorems for all tables and inputs, LL and LR: lr_leaves_eq_tokens (Props/C14b: under the checked table validity lrTableValid — or just acceptOnEoi — the token leaves of a successful untrimmed LR parse tree are the delivered tokens in order; the unconditional statement is refuted, lrLeavesEqTokens_needs_valid_table) and ll_leaves_eq_tokens (the token leaves of a successful untrimmed LL parse tree are exactly the delivered tokens in order — from ll_tree_actions and DS_leaves); tokensContiguous_concat (a token sequence that passes the decidable statement partitions the input). Token clause and LR tree clause: decided on the REAL output of every explored input by the Lean statements tokensContiguous (offsets contiguous 0..len, line/column of every token = those of its start offset) and treeCheck; the LR model lrRun is tied to the real LRParser by exact differential runs on styled inputs. Gap-filling by TokenBuffer::add and independence of the lookahead size are theorems of C13/C16 (gap_iff_unmatched, stream_indep_of_k).",
     "design_ref": "DESIGN.md §6 C14",
-    "note": "Trusted: Lean kernel; harness (hex transport of texts, token dump) and orchestrator; scnr2's matches are taken as given. Known finding F27 (scnr2 position tracking after unmatched text) is reproduced and reported as KNOWN-FINDING. Not proved: LR leaves = tokens (LRLeavesEqTokens).",
-    "technique": "Lean 4 proof (LL tree clause) + Lean-evaluated property statements on real output + differential correspondence check",
+    "note": "Trusted: Lean kernel; harness (hex transport of texts, token dump) and orchestrator; scnr2's matches are taken as given. Known finding F27 (scnr2 position tracking after unmatched text) is reproduced and reported as KNOWN-FINDING.",
+    "technique": "Lean 4 proof (LL and LR tree clause) + Lean-evaluated property statements on real output + differential correspondence check",
 }
 
 
